@@ -136,12 +136,15 @@ fn canon(d: &TensorData) -> Val {
 enum Op {
     Put(u64, Val),
     Del(u64),
+    /// explicit TensorStore::sync() -- a no-op for the model (not printed), only moves the ack watermark
+    Sync,
 }
 impl Op {
     fn coq(&self) -> String {
         match self {
             Op::Put(k, v) => format!("Put {} {}", k, v.coq()),
             Op::Del(k) => format!("Del {k}"),
+            Op::Sync => unreachable!("Sync is not a model op"),
         }
     }
 }
@@ -206,6 +209,7 @@ fn table(vals: &mut Values, ops: &[Op], max_ids: u64) -> String {
                 push(format!("MetaDel {k}"), WalEntry::MetadataDelete { key: kname(*k) }, &mut rows);
                 push(format!("EntRemove {k}"), WalEntry::EntityRemove { key: kname(*k) }, &mut rows);
             }
+            Op::Sync => {}
         }
     }
     for id in 0..max_ids {
@@ -242,13 +246,28 @@ fn run_generation(
     chosen_pick: &mut dyn FnMut(u64, u64, &[u64]) -> u64,
     dist: &mut Dist,
     thorough: bool,
+    snapshot: Option<&Path>,
+    cfg: &WalConfig,
 ) -> (GenOut, Vec<u8>, u64) {
-    let cfg = WalConfig::default();
+    let cfg = cfg.clone();
     let base = fs::metadata(wal).map(|m| m.len()).unwrap_or(0);
     let mut results = vec![];
     let mut lives: Vec<Obs> = vec![observe(&store)];
-    let mut ends = vec![];
+    let mut ends: Vec<u64> = vec![];
+    let mut acks: Vec<u64> = vec![];
+    const NEVER: u64 = 1_000_000_000_000_000_000;
     for op in ops {
+        if matches!(op, Op::Sync) {
+            dist.hit("op.sync");
+            let _ = store.sync();
+            let on_disk = fs::metadata(wal).map(|m| m.len()).unwrap_or(0);
+            for (e, a) in ends.iter().zip(acks.iter_mut()) {
+                if *e <= on_disk {
+                    *a = *e;
+                }
+            }
+            continue;
+        }
         let ok = match op {
             Op::Put(k, v) => {
                 dist.hit(&format!("op.put.class{}", k % 5));
@@ -263,12 +282,24 @@ fn run_generation(
                 dist.hit(&format!("op.del.class{}", k % 5));
                 guarded(std::panic::AssertUnwindSafe(|| store.delete_durable(&kname(*k)).is_ok())).unwrap_or(false)
             }
+            Op::Sync => unreachable!(),
         };
         dist.hit(if ok { "call.ok" } else { "call.err" });
         results.push(ok);
         lives.push(observe(&store));
-        ends.push(fs::metadata(wal).map(|m| m.len()).unwrap_or(0));
+        // logical end of this call's records (includes bytes still in the writer's buffer)
+        ends.push(store.wal_status().map_or(0, |st| st.size_bytes));
+        acks.push(NEVER);
+        // whatever has reached the file by now was fsynced (Immediate / full batch): acknowledged
+        let on_disk = fs::metadata(wal).map(|m| m.len()).unwrap_or(0);
+        for (e, a) in ends.iter().zip(acks.iter_mut()) {
+            if *e <= on_disk {
+                *a = *e;
+            }
+        }
     }
+    let ops: Vec<Op> = ops.iter().filter(|o| !matches!(o, Op::Sync)).cloned().collect();
+    let ops = &ops[..];
     drop(store);
     let fbytes = fs::read(wal).unwrap_or_default();
     let len = fbytes.len() as u64;
@@ -309,7 +340,7 @@ fn run_generation(
                 let mut out = vec![];
                 for &k in part {
                     fs::write(&path, &fb[..k as usize]).unwrap();
-                    let ro = match guarded(std::panic::AssertUnwindSafe(|| TensorStore::recover(&path, &cfg, None))) {
+                    let ro = match guarded(std::panic::AssertUnwindSafe(|| TensorStore::recover(&path, &cfg, snapshot))) {
                         Ok(Ok(s)) => Some(observe(&s)),
                         _ => None,
                     };
@@ -331,7 +362,7 @@ fn run_generation(
     let mut oracle_fail = None;
     for (k, ro) in all {
         // the same oracle the Coq side evaluates, here only to label the evidence / replay
-        let acked = ends.iter().filter(|e| **e <= k).count();
+        let acked = acks.iter().filter(|e| **e <= k).count();
         let holds = ro.as_ref().map_or(false, |o| lives[acked..].iter().any(|l| l == o));
         if !holds && oracle_fail.is_none() {
             oracle_fail = Some(format!(
@@ -354,18 +385,20 @@ fn run_generation(
     }
     let chosen = chosen_pick(base, len, &ends);
     let term = format!(
-        "({}, {}, {}, {}, {}, {}, {}, {})",
+        "({}, {}, {}, {}, {}, {}, {}, {}, {})",
         list(ops.iter().map(|o| o.coq())),
         list(results.iter().map(|r| b(*r))),
         list(lives.iter().map(obs_coq)),
         list(ends.iter().map(|e| n(*e))),
+        list(acks.iter().map(|e| n(*e))),
         base,
         bytes(&fbytes),
         list(runs.iter().map(|(a, z, st, o)| format!("({}, {}, {}, {})", a, z, st, opt(o.as_ref().map(obs_coq))))),
         chosen
     );
     let human = format!(
-        "ops={:?} results={:?} base={} len={} chosen_crash={} final_live={}",
+        "sync={:?} ops={:?} results={:?} base={} len={} chosen_crash={} final_live={}",
+        cfg.sync_mode,
         ops,
         results,
         base,
@@ -409,13 +442,15 @@ struct Ctx<'a> {
 
 /// a whole case: generations = [(ops, how to pick the continuing crash offset)]
 fn run_case(cx: &mut Ctx, label: &str, gens: Vec<Vec<Op>>, picks: Vec<Box<dyn FnMut(u64, u64, &[u64]) -> u64>>) {
+    run_case_cfg(cx, label, gens, picks, WalConfig::default())
+}
+fn run_case_cfg(cx: &mut Ctx, label: &str, gens: Vec<Vec<Op>>, picks: Vec<Box<dyn FnMut(u64, u64, &[u64]) -> u64>>, cfg: WalConfig) {
     cx.counter += 1;
     let dir: PathBuf = cx.args.out.join("scratch");
     fs::create_dir_all(&dir).unwrap();
     let wal = dir.join(format!("c{}.wal", cx.counter));
     let scratch = dir.join("crash.wal");
     let _ = fs::remove_file(&wal);
-    let cfg = WalConfig::default();
     let all_ops: Vec<Op> = gens.iter().flatten().cloned().collect();
     let tab = table(&mut cx.vals, &all_ops, all_ops.len() as u64 + 1);
     let mut terms = vec![];
@@ -437,7 +472,7 @@ fn run_case(cx: &mut Ctx, label: &str, gens: Vec<Vec<Op>>, picks: Vec<Box<dyn Fn
                 }
             }
         };
-        let (out, fbytes, chosen) = run_generation(store, &wal, &scratch, &mut cx.vals, ops, &mut *picks[gi], &mut cx.dist, cx.args.thorough());
+        let (out, fbytes, chosen) = run_generation(store, &wal, &scratch, &mut cx.vals, ops, &mut *picks[gi], &mut cx.dist, cx.args.thorough(), None, &cfg);
         if fail.is_none() {
             if let Some(f) = &out.oracle_fail {
                 fail = Some(format!("generation {}: {}", gi + 1, f));
@@ -453,7 +488,119 @@ fn run_case(cx: &mut Ctx, label: &str, gens: Vec<Vec<Op>>, picks: Vec<Box<dyn Fn
     let term = format!("({}, {}, {})", tab, K, list(terms));
     let human = format!("{label}: {}{}", humans.join(" | "), fail.as_ref().map(|f| format!(" ORACLE-FALSE: {f}")).unwrap_or_default());
     cx.w.push(&term, &human, ngen >= 1 && all_ops.len() >= 2);
-    let _ = &cx.hits;
+}
+
+/// crashes at the step boundaries inside checkpoint() (hook b979a711), then one more generation
+/// of calls recovered WITH the snapshot
+fn run_ckpt_case(cx: &mut Ctx, wck: &mut CaseWriter, label: &str, ops1: Vec<Op>, ops2: Vec<Op>) {
+    use std::sync::{Arc, Mutex};
+    cx.counter += 1;
+    let dir: PathBuf = cx.args.out.join("scratch");
+    fs::create_dir_all(&dir).unwrap();
+    let wal = dir.join(format!("k{}.wal", cx.counter));
+    let snap = dir.join(format!("k{}.snap", cx.counter));
+    let scratch = dir.join("crashk.wal");
+    let scratch_snap = dir.join("crashk.snap");
+    let _ = fs::remove_file(&wal);
+    let _ = fs::remove_file(&snap);
+    let cfg = WalConfig::default();
+    let all_ops: Vec<Op> = ops1.iter().chain(ops2.iter()).cloned().collect();
+    let tab = table(&mut cx.vals, &all_ops, all_ops.len() as u64 + 1);
+    let store = TensorStore::open_durable(&wal, cfg.clone()).expect("open_durable");
+    let mut res1 = vec![];
+    for op in &ops1 {
+        res1.push(match op {
+            Op::Put(k, v) => store.put_durable(kname(*k), cx.vals.data(*v)).is_ok(),
+            Op::Del(k) => store.delete_durable(&kname(*k)).is_ok(),
+            Op::Sync => true,
+        });
+    }
+    let live = observe(&store);
+    let w = fs::read(&wal).unwrap_or_default();
+    // copy the files as they are at each step boundary
+    let seen: Arc<Mutex<Vec<(String, Vec<u8>, Vec<u8>)>>> = Arc::new(Mutex::new(vec![]));
+    {
+        let seen = seen.clone();
+        let (walp, snapp) = (wal.clone(), snap.clone());
+        tensor_store::verif_hook::set(Some(Arc::new(move |name: &str| {
+            if name.starts_with("checkpoint.") {
+                seen.lock().unwrap().push((name.to_string(), fs::read(&walp).unwrap_or_default(), fs::read(&snapp).unwrap_or_default()));
+            }
+        })));
+    }
+    let ck = store.checkpoint(&snap);
+    tensor_store::verif_hook::set(None);
+    let seen = seen.lock().unwrap().clone();
+    let snap_bytes = fs::read(&snap).unwrap_or_default();
+    if ck.is_err() || seen.len() != 2 || seen[0].0 != "checkpoint.snapshot_saved" || seen[1].0 != "checkpoint.marker_logged" {
+        cx.dist.hit("ckpt.hook_points_missing");
+        return;
+    }
+    let step_order_ok = seen[0].1 == w && seen[0].2 == snap_bytes && seen[1].1.starts_with(&w) && seen[1].2 == snap_bytes
+        && fs::metadata(&wal).map(|m| m.len()).unwrap_or(1) == 0;
+    cx.dist.hit(if step_order_ok { "ckpt.step_order_as_modelled" } else { "ckpt.step_order_DIFFERENT" });
+    let marker: Vec<u8> = seen[1].1[w.len().min(seen[1].1.len())..].to_vec();
+    let mut stages: Vec<(u64, u64, Option<Obs>)> = vec![];
+    let mut fail: Option<String> = None;
+    let mut crash = |stage: u64, off: u64, wal_bytes: &[u8], with_snap: bool, stages: &mut Vec<(u64, u64, Option<Obs>)>| {
+        fs::write(&scratch, wal_bytes).unwrap();
+        let sp = if with_snap {
+            fs::write(&scratch_snap, &snap_bytes).unwrap();
+            Some(scratch_snap.as_path())
+        } else {
+            let _ = fs::remove_file(&scratch_snap);
+            None
+        };
+        let ro = match guarded(std::panic::AssertUnwindSafe(|| TensorStore::recover(&scratch, &cfg, sp))) {
+            Ok(Ok(s)) => Some(observe(&s)),
+            _ => None,
+        };
+        if ro.as_ref() != Some(&live) && fail.is_none() {
+            fail = Some(format!(
+                "crash inside checkpoint at stage {stage} (+{off} marker bytes): recovery {} but the live store showed {}",
+                ro.as_ref().map_or("FAILED".to_string(), |o| format!("gave {}", obs_human(o))),
+                obs_human(&live)
+            ));
+        }
+        stages.push((stage, off, ro));
+    };
+    crash(0, 0, &w, false, &mut stages);
+    crash(1, 0, &w, true, &mut stages);
+    for off in 0..=marker.len() as u64 {
+        let mut b2 = w.clone();
+        b2.extend_from_slice(&marker[..off as usize]);
+        crash(2, off, &b2, true, &mut stages);
+    }
+    crash(3, 0, &[], true, &mut stages);
+    drop(crash);
+    cx.dist.add("ckpt.crash_states", stages.len() as u64);
+    // the calls after the checkpoint, crashed at every byte, recovered with the snapshot
+    let mut pick = pick_end();
+    let thorough = cx.args.thorough();
+    let (g2, _fb, _ch) = run_generation(store, &wal, &scratch, &mut cx.vals, &ops2, &mut *pick, &mut cx.dist, thorough, Some(&snap), &cfg);
+    if fail.is_none() {
+        fail = g2.oracle_fail.clone().map(|f| format!("after the checkpoint: {f}"));
+    }
+    let term = format!(
+        "({}, {}, {}, {}, {}, {}, {}, {}, {})",
+        tab,
+        K,
+        list(ops1.iter().map(|o| o.coq())),
+        list(res1.iter().map(|r| b(*r))),
+        obs_coq(&live),
+        bytes(&w),
+        bytes(&marker),
+        list(stages.iter().map(|(st, off, o)| format!("({}, {}, {})", st, off, opt(o.as_ref().map(obs_coq))))),
+        g2.term
+    );
+    let human = format!(
+        "{label}: ops_before={:?} results={:?} live_at_checkpoint={} log_len={} marker_len={} crash_states={} | after checkpoint: {}{}",
+        ops1, res1, obs_human(&live), w.len(), marker.len(), stages.len(), g2.human,
+        fail.as_ref().map(|f| format!(" ORACLE-FALSE: {f}")).unwrap_or_default()
+    );
+    wck.push(&term, &human, ops1.len() >= 2);
+    let _ = fs::remove_file(&wal);
+    let _ = fs::remove_file(&snap);
 }
 
 fn pick_end() -> Box<dyn FnMut(u64, u64, &[u64]) -> u64> {
@@ -517,7 +664,7 @@ fn main() {
     );
 
     // ---------------- seeded cases ----------------
-    let ncases = args.budget(36, 900);
+    let ncases = args.budget(36, 500);
     for ci in 0..ncases {
         let big = ci % 12 == 11; // a few cases exercise the 384-dim embedding slab
         let ngen = if big { rng.range(1, 2) } else { rng.range(1, 3) } as usize;
@@ -528,7 +675,7 @@ fn main() {
         if !keys.iter().any(|k| k % 5 == 0) && rng.chance(1, 2) {
             keys.push(*rng.pick(&[0u64, 5]));
         }
-        let mut gens = vec![];
+        let mut gens: Vec<Vec<Op>> = vec![];
         let mut picks: Vec<Box<dyn FnMut(u64, u64, &[u64]) -> u64>> = vec![];
         for _ in 0..ngen {
             let nops = if big { rng.range(1, 3) } else { rng.range(1, 7) } as usize;
@@ -536,7 +683,87 @@ fn main() {
             picks.push(pick_random(rng.fork()));
         }
         cx.dist.hit(if big { "case.with_384dim_vectors" } else { "case.small_values" });
-        run_case(&mut cx, &format!("seed{} #{}", args.seed, ci), gens, picks);
+        // sync modes: the default Immediate mostly; Manual and Batched with explicit syncs sprinkled in
+        // (small values only: the writer's 8 KiB buffer must not spill by itself)
+        let mode = if big { 0 } else { rng.below(10) };
+        let cfg = match mode {
+            7 | 8 => WalConfig { sync_mode: tensor_store::SyncMode::Manual, ..WalConfig::default() },
+            9 => WalConfig { sync_mode: tensor_store::SyncMode::Batched { max_entries: rng.range(2, 3) as usize }, ..WalConfig::default() },
+            _ => WalConfig::default(),
+        };
+        cx.dist.hit(&format!("case.sync_mode.{}", match mode { 7 | 8 => "manual", 9 => "batched", _ => "immediate" }));
+        if mode >= 7 {
+            for g in gens.iter_mut() {
+                let mut i = 0;
+                while i <= g.len() {
+                    if rng.chance(1, 3) {
+                        g.insert(i, Op::Sync);
+                        i += 1;
+                    }
+                    i += 1;
+                }
+            }
+        }
+        run_case_cfg(&mut cx, &format!("seed{} #{}", args.seed, ci), gens, picks, cfg);
+    }
+    // ---------------- crashes inside checkpoint() ----------------
+    let mut wck = CaseWriter::new(&args.out, "ckpt");
+    run_ckpt_case(
+        &mut cx,
+        &mut wck,
+        "corpus checkpoint",
+        vec![Op::Put(1, v(1, None)), Op::Put(0, v(2, Some(1))), Op::Del(1), Op::Put(6, v(3, None)), Op::Del(0), Op::Put(0, v(4, Some(2)))],
+        vec![Op::Put(2, v(5, None)), Op::Del(6), Op::Put(0, v(6, None))],
+    );
+    let nck = args.budget(8, 120);
+    for ci in 0..nck {
+        let big = ci % 8 == 7;
+        let mut keys: Vec<u64> = (0..K).collect();
+        rng.shuffle(&mut keys);
+        keys.truncate(rng.range(2, 5) as usize);
+        let n1 = if big { rng.range(1, 3) } else { rng.range(1, 8) } as usize;
+        let n2 = if big { rng.range(0, 2) } else { rng.range(0, 5) } as usize;
+        let ops1 = gen_ops(&mut rng, n1, big, &keys);
+        let ops2 = gen_ops(&mut rng, n2, big, &keys);
+        cx.dist.hit("case.checkpoint");
+        run_ckpt_case(&mut cx, &mut wck, &format!("seed{} ckpt#{}", args.seed, ci), ops1, ops2);
+    }
+
+    // ---------------- implementation-only stream: log rotation (known finding class) ----------------
+    // Rotation renames the live log to .1 and starts an empty one; recovery reads only the live
+    // file.  With a small size limit (public WalConfig) acknowledged writes are gone after restart.
+    {
+        let dir = args.out.join("scratch");
+        fs::create_dir_all(&dir).unwrap();
+        let wal = dir.join("rotate.wal");
+        for i in 0..4 {
+            let _ = fs::remove_file(dir.join(format!("rotate.wal.{i}")));
+        }
+        let _ = fs::remove_file(&wal);
+        let cfg = WalConfig { max_size_bytes: 100, ..WalConfig::default() };
+        let store = TensorStore::open_durable(&wal, cfg.clone()).expect("open");
+        let keys: Vec<u64> = vec![1, 2, 3, 6, 7, 8];
+        let mut acked = vec![];
+        for k in &keys {
+            if store.put_durable(kname(*k), cx.vals.data(v(1, None))).is_ok() {
+                acked.push(*k);
+            }
+        }
+        drop(store);
+        if let Ok(rec) = TensorStore::recover(&wal, &cfg, None) {
+            let lost: Vec<String> = acked.iter().filter(|k| rec.get(&kname(**k)).is_err()).map(|k| kname(*k)).collect();
+            cx.dist.hit("rotation.probe");
+            if std::env::var("NVH_TIMING").is_ok() {
+                eprintln!("rotation probe: acked {:?} lost {:?} files {:?}", acked, lost, fs::read_dir(&dir).unwrap().map(|e| (e.as_ref().unwrap().file_name(), e.unwrap().metadata().unwrap().len())).collect::<Vec<_>>());
+            }
+            if !lost.is_empty() {
+                cx.hits.push(
+                    "wal-rotation",
+                    &format!("WalConfig{{max_size_bytes:100}}: {} acknowledged put_durable calls; after recover the keys {:?} are gone (the log was rotated to .1 and recovery reads only the live file)", acked.len(), lost),
+                    json!({"config": "WalConfig{max_size_bytes:100, ..default}", "puts": acked.iter().map(|k| kname(*k)).collect::<Vec<_>>(), "lost_after_recover": lost}),
+                );
+            }
+        }
     }
     let _ = fs::remove_dir_all(args.out.join("scratch"));
 
@@ -544,8 +771,9 @@ fn main() {
         &args.out,
         json!({
             "property": "C02", "seed": args.seed, "tier": args.tier,
-            "kinds": [cx.w.summary()],
+            "kinds": [cx.w.summary(), wck.summary()],
             "distribution": cx.dist.json(),
+            "hits": cx.hits.0,
             "nontrivial_rule": "a case with at least 2 durable calls; every case recovers at EVERY byte offset of what each generation appended (quick tier: stride 7 inside the payload of records > 200 bytes, every byte within 24 bytes of each record edge)",
         }),
     );
